@@ -1,5 +1,6 @@
 import NoteSeqVerif.Proofs.C03
 import NoteSeqVerif.Proofs.C03Tick
+import NoteSeqVerif.Proofs.C03Drop
 import Mathlib.Tactic.Linarith
 import Mathlib.Tactic.Ring
 import Mathlib.Tactic.FieldSimp
@@ -515,5 +516,55 @@ theorem midi_write_ok (s : NoteSeq) (h : Representable s) : ∃ pm, writePM id s
 example : Representable { notes := [{ (default : Note) with pitch := 60, velocity := 100, end_ := 1, program := 5 }],
                           tempos := [⟨0, 90⟩], keySigs := [⟨0, 9, 1⟩], timeSigs := [⟨0, 6, 8⟩], tpq := 480 } := by
   refine ⟨by decide, ?_, ?_, ?_, ?_, by simp, by simp⟩ <;> simp <;> decide +kernel
+
+/-! ## `drop_events_n_seconds_after_last_note`: the cut-off is `end of the note that ends last + n`
+
+(`maxEnd_ge` / `maxEnd_mem` in Proofs/C03Drop: `maxEnd` is an upper bound of every note's end and is attained.) -/
+
+/-- **The drop cut-off is a function of the notes' end times and of the parameter, of nothing else**: two sequences
+with the same notes have the same cut-off, whatever their `total_time` (unset, stale, too large) or any other field. -/
+theorem midi_drop_cutoff_from_notes_only (R : Rat → Rat) (s s' : NoteSeq) (drop : Option Rat)
+    (h : s'.notes = s.notes) : maxEventTime R s' drop = maxEventTime R s drop := by
+  cases drop <;> simp [maxEventTime, h]
+
+/-- `total_time` (and the quantisation / subsequence metadata) never enters what the writer builds. -/
+theorem midi_write_ignores_total_time (R : Rat → Rat) (s : NoteSeq) (tt : Rat) (drop : Option Rat) :
+    writePM R { s with totalTime := tt } drop = writePM R s drop := rfl
+
+/-- parameter not given: nothing is dropped. -/
+theorem midi_drop_none (R : Rat → Rat) (s : NoteSeq) :
+    (∀ t, dropped (maxEventTime R s none) t = false) ∧
+    keptBends (maxEventTime R s none) s = s.bends ∧ keptCCs (maxEventTime R s none) s = s.ccs := by
+  refine ⟨fun t => rfl, ?_, ?_⟩ <;> simp [keptBends, keptCCs, maxEventTime, dropped]
+
+/-- exact arithmetic: an event is dropped iff it lies STRICTLY more than `d` seconds after the end of the note that
+ends last (and the cut-off is not 0.0, which Python treats as `no cut-off`). -/
+theorem midi_drop_exact (s : NoteSeq) (d t : Rat) :
+    dropped (maxEventTime id s (some d)) t = true ↔ (maxEnd s.notes + d ≠ 0 ∧ maxEnd s.notes + d < t) := by
+  simp [dropped, maxEventTime]
+
+/-- floats (any monotone rounding that leaves the double `maxEnd` alone): with `d ≥ 0` nothing at or before the end
+of the last note is ever dropped - in particular no event of a sequence whose events all lie within its notes,
+whatever `total_time` says. -/
+theorem midi_drop_keeps_events_within_notes (R : Rat → Rat) (hmono : ∀ a b, a ≤ b → R a ≤ R b)
+    (s : NoteSeq) (d : Rat) (hd : 0 ≤ d) (hfix : R (maxEnd s.notes) = maxEnd s.notes)
+    (t : Rat) (ht : t ≤ maxEnd s.notes) : dropped (maxEventTime R s (some d)) t = false := by
+  have h1 : maxEnd s.notes ≤ R (maxEnd s.notes + d) := by
+    have := hmono (maxEnd s.notes) (maxEnd s.notes + d) (by linarith)
+    rwa [hfix] at this
+  simp only [dropped, maxEventTime, Bool.and_eq_false_imp, ne_eq, decide_eq_false_iff_not, not_lt]
+  intro _
+  exact le_trans ht h1
+
+/-- floats: an event later than the rounded cut-off is dropped (cut-off non-zero), one at or before it is kept. -/
+theorem midi_drop_float (R : Rat → Rat) (s : NoteSeq) (d t : Rat) :
+    dropped (maxEventTime R s (some d)) t = true ↔ (R (maxEnd s.notes + d) ≠ 0 ∧ R (maxEnd s.notes + d) < t) := by
+  simp [dropped, maxEventTime]
+
+example : maxEnd [{ (default : Note) with end_ := 10 }, { (default : Note) with end_ := 3 }] = 10 ∧
+    dropped (maxEventTime id { notes := [{ (default : Note) with end_ := 10 }], totalTime := 0 } (some 1)) 8 = false ∧
+    dropped (maxEventTime id { notes := [{ (default : Note) with end_ := 10 }], totalTime := 30 } (some 1)) 12 = true ∧
+    dropped (maxEventTime id { notes := [{ (default : Note) with end_ := 10 }], totalTime := 30 } (some 1)) 11 = false := by
+  decide +kernel
 
 end NSV.C03
